@@ -420,7 +420,9 @@ class Mesh:
             If ``True``, include only boundary facets.
 
         """
-        nodes = np.nonzero(test(self.p))[0].astype(np.int32)
+        # further columns are mid-side or unused points, not vertices
+        p = self.p[:, :self.nvertices]
+        nodes = np.nonzero(test(p))[0].astype(np.int32)
         if boundaries_only:
             nodes = np.intersect1d(nodes, self.boundary_nodes())
         return nodes
